@@ -517,6 +517,102 @@ def _subst(x, sub):
     return {k: _subst(v, sub) for k, v in x.items()}
 
 
+def _succs(t):
+    out = []
+    for key in ("target", "otherwise"):
+        if isinstance(t.get(key), int) and not isinstance(t.get(key), bool):
+            out.append(t[key])
+    for v, b in t.get("targets", []) or []:
+        out.append(b)
+    return out
+
+
+def _retarget(t, old, new):
+    for key in ("target", "otherwise"):
+        if t.get(key) == old and isinstance(t.get(key), int):
+            t[key] = new
+    if t.get("targets"):
+        t["targets"] = [[v, (new if b == old else b)] for v, b in t["targets"]]
+
+
+def _thread_try(C, hb, B, L, dest, tgt):
+    """hb: the helper's blocks (already renumbered from B, `return` already replaced by `dest = move _L; goto tgt`)."""
+    import copy
+    if tgt is None or dest.get("proj"):
+        return
+    T = C["blocks"][tgt]
+    tt = T["term"]
+    if tt["k"] != "call" or not tt.get("callee") or not str((tt["callee"].get("resolved") or tt["callee"]).get("name", "")).endswith("branch"):
+        return
+    if "Try" not in json.dumps(tt["callee"])[:600]:
+        return
+    a0 = tt["args"][0] if tt.get("args") else None
+    if not a0 or a0.get("k") not in ("move", "copy") or a0["place"]["local"] != dest["local"] or a0["place"]["proj"]:
+        return
+    if not isinstance(tt.get("target"), int):
+        return
+    S = C["blocks"][tt["target"]]
+    st = S["term"]
+    if st["k"] != "switch" or sorted(v for v, _ in st["targets"]) != [0, 1]:
+        return
+    edge = {v: b for v, b in st["targets"]}
+    # the helper's return blocks (now: ... ; dest = move _L ; goto tgt)
+    rets = [i for i, blk in enumerate(hb) if blk["term"]["k"] == "goto" and blk["term"].get("target") == tgt and blk["stmts"] and
+            blk["stmts"][-1].get("k") == "assign" and blk["stmts"][-1]["place"] == dest]
+    # which variant does the helper's result hold when a block is left?  (1 = Err, 0 = Ok, None = not known)
+    n = len(hb)
+    own = {}
+    for pi, P in enumerate(hb):
+        v = "pass"
+        for stt in P["stmts"]:
+            if stt.get("k") == "assign" and stt["place"]["local"] == L and not stt["place"]["proj"]:
+                rv = stt["rv"]
+                v = rv.get("variant") if (rv.get("k") == "aggregate" and rv.get("agg") == "adt" and
+                                          str(rv.get("name", "")).endswith("Result")) else None
+        pt = P["term"]
+        if pt["k"] == "call" and pt.get("dest", {}).get("local") == L and not pt["dest"]["proj"]:
+            v = 1 if "from_residual" in json.dumps(pt.get("callee") or {})[:800] else None
+        own[pi] = v
+    preds = {i: [] for i in range(n)}
+    for pi, P in enumerate(hb):
+        if P.get("cleanup"):
+            continue
+        for y in _succs(P["term"]):
+            if B <= y < B + n:
+                preds[y - B].append(pi)
+    out = {}
+    for _ in range(n + 2):
+        changed = False
+        for pi in range(n):
+            if own[pi] != "pass":
+                v = own[pi]
+            else:
+                vs = {out.get(q, "?") for q in preds[pi]}
+                v = vs.pop() if len(vs) == 1 else None
+                if v == "?":
+                    v = "?"
+            if out.get(pi, "?") != v:
+                out[pi] = v
+                changed = True
+        if not changed:
+            break
+    for ri in rets:
+        rabs = B + ri
+        for pi in list(range(n)):
+            P = hb[pi]
+            if pi == ri or rabs not in _succs(P["term"]) or out.get(pi) != 1:
+                continue
+            base = B + len(hb)
+            r2 = copy.deepcopy(hb[ri])
+            t2 = copy.deepcopy(T)
+            s2 = copy.deepcopy(S)
+            r2["term"]["target"] = base + 1
+            t2["term"]["target"] = base + 2
+            s2["term"] = {"k": "goto", "target": edge[1], "span": st["span"]}
+            _retarget(P["term"], rabs, base)
+            hb.extend([r2, t2, s2])
+
+
 def _inline_call(C, bi, H):
     import copy
     L, B = len(C["locals"]), len(C["blocks"])
@@ -540,6 +636,13 @@ def _inline_call(C, bi, H):
             blk["term"] = {"k": "goto", "target": tgt, "span": t["span"]} if tgt is not None else {"k": "unreachable", "span": t["span"]}
         elif t["k"] == "resume" and isinstance(unw, int):
             blk["term"] = {"k": "goto", "target": unw, "span": t["span"]}
+    # the caller usually applies `?` to a helper's Result: keep the two outcomes apart.  A return of the helper that visibly
+    # builds Ok(..) / Err(..) gets its own copy of the caller's `?` blocks with the edge already chosen, so that "the Err of
+    # the helper ends in an error" stays visible without path-sensitive reasoning.
+    try:
+        _thread_try(C, hb, B, L, dest, tgt)
+    except Exception:
+        pass
     stmts = C["blocks"][bi]["stmts"]
     for i, a in enumerate(call["args"]):
         stmts.append({"k": "assign", "place": {"local": L + 1 + i, "proj": [], "ty": hl[1 + i]["ty"]},
@@ -577,36 +680,50 @@ def inline_new_helpers(j):
             if h.get("reachable") or h.get("trait"):
                 continue
             ss = sites.get(h["def"], [])
-            if len(ss) != 1:
-                continue
-            caller, bi = ss[0]
-            if caller is h or caller.get("promoted") is not None or caller["kind"] == "Closure":
+            if not (1 <= len(ss) <= 3):
                 continue
             if _has_loop(h):
                 continue       # splicing a loop into the caller would turn its straight-line terms into loop terms
-            # only within one type (or between free functions): rules are scoped by the type a method belongs to
-            if ((h.get("self_ty") or {}).get("def"), ) != ((caller.get("self_ty") or {}).get("def"), ):
-                continue
-            cal = caller["blocks"][bi]["term"]["callee"]
-            gargs = (cal.get("resolved") or cal).get("args", [])
-            if len(gargs) != len(h.get("generics", [])):
+            okk = True
+            for caller, bi in ss:
+                if caller is h or caller.get("promoted") is not None or caller["kind"] == "Closure":
+                    okk = False
+                # a method only into methods of its own type (rules are scoped by the type a method belongs to); a free
+                # function anywhere
+                hs = (h.get("self_ty") or {}).get("def")
+                if hs is not None and hs != (caller.get("self_ty") or {}).get("def"):
+                    okk = False
+                # ... a free function only into callers of its own file (a utility shared across modules is a function of its own)
+                if hs is None and (h.get("span") or {}).get("file") != (caller.get("span") or {}).get("file"):
+                    okk = False
+                cal = caller["blocks"][bi]["term"]["callee"]
+                gargs = (cal.get("resolved") or cal).get("args", [])
+                if len(gargs) != len(h.get("generics", [])):
+                    okk = False
+            if not okk:
                 continue
             # taken by value elsewhere (function pointer, closure argument)?  then it is not only called
             blob = json.dumps([b for b in bodies if b is not h])
-            if blob.count('"k": "fndef", "def": %s' % json.dumps(h["def"])) != 1:
+            if blob.count('"k": "fndef", "def": %s' % json.dumps(h["def"])) != len(ss):
                 continue
-            cand = (caller, bi, h)
+            cand = (ss, h)
             break
         if cand is None:
             break
-        caller, bi, h = cand
+        ss, h = cand
         try:
-            _inline_call(caller, bi, h)
+            import copy
+            backup = [(caller, copy.deepcopy(caller["blocks"]), copy.deepcopy(caller["locals"])) for caller, _ in ss]
+            # several sites in one caller: splice from the last block index down (indices of earlier blocks stay valid)
+            for caller, bi in sorted(ss, key=lambda x: -x[1]):
+                _inline_call(caller, bi, h)
         except Exception:
+            for caller, blocks, locs in backup:
+                caller["blocks"], caller["locals"] = blocks, locs
             known = known | {h["name"]}
             continue
         j["bodies"] = [b for b in bodies if b is not h and not (b.get("promoted") is not None and b["def"] == h["def"])]
-        done.append("%s -> %s" % (h["name"], caller["name"]))
+        done.append("%s -> %s" % (h["name"], ", ".join(sorted({c["name"] for c, _ in ss}))))
     return done
 
 
